@@ -11,7 +11,7 @@
 (***************************************************************************)
 EXTENDS Base
 
-WideSet == {65317, 26085, 128512}
+WideSet == {65317, 26085, 128512, 12288, 12334}     \* + IDEOGRAPHIC SPACE, HANGUL SINGLE DOT TONE MARK (a spacing combining mark)
 ZeroSet == {769, 8203, 3633, 8205, 4448}
 W(cp) == IF cp \in WideSet THEN 2 ELSE IF cp \in ZeroSet THEN 0 ELSE 1
 
